@@ -151,7 +151,7 @@ func main() {
 		}
 		results = append(results, hr)
 		fmt.Printf("%-44s paths=%d done=%d infeasible=%d asserts=%d viol=%d inconcl=%v queries=%v solver=%.1fs wall=%.1fs\n",
-			c.Name, hr.Paths, hr.Completed, hr.Infeasible, sum(hr.Asserts), len(hr.Violations), hr.Inconclusive, hr.Queries, hr.SolverTime.Seconds(), hr.Wall.Seconds())
+			c.Name, hr.Paths, hr.Completed, hr.Infeasible, sum(hr.Asserts)+sum(hr.Folded), len(hr.Violations), hr.Inconclusive, hr.Queries, hr.SolverTime.Seconds(), hr.Wall.Seconds())
 		for _, m := range hr.InconclMsgs {
 			fmt.Printf("    inconclusive: %s\n", m)
 		}
@@ -297,6 +297,9 @@ func writeEvidence(prop, tier string, seed int, l *run.Loaded, results []*run.Ha
 		for id := range hr.Asserts {
 			ids[id] = true
 		}
+		for id := range hr.Folded {
+			ids[id] = true
+		}
 		violated := map[string]bool{}
 		for _, v := range hr.Violations {
 			ids[v.ID] = true
@@ -324,7 +327,7 @@ func writeEvidence(prop, tier string, seed int, l *run.Loaded, results []*run.Ha
 		}
 		h := map[string]interface{}{
 			"harness": hr.Check.Name, "paths": hr.Paths, "completed": hr.Completed, "infeasible": hr.Infeasible,
-			"assertion_instances_discharged": hr.Asserts, "violations": len(hr.Violations), "inconclusive": hr.Inconclusive,
+			"assertion_instances_discharged_by_solver": hr.Asserts, "assertion_instances_reduced_to_true_by_rewriting": sum(hr.Folded), "violations": len(hr.Violations), "inconclusive": hr.Inconclusive,
 			"queries": hr.Queries, "solver_s": round(hr.SolverTime.Seconds()), "wall_s": round(hr.Wall.Seconds()),
 			"reached": hr.Reached, "max_decisions_on_a_path": hr.MaxTrail, "desc": hr.Check.Desc, "bounds": hr.Check.Bounds,
 		}
